@@ -211,8 +211,8 @@ Block21(o) == Cat(<<Named("header", Lit(<<99, 104, 100, 114, 1, 0, 2, 0>> \o U32
 \* ------------------------------------------------------------------ certificate block v1 (documented layout, as relations
 \* over the numbers an executor reads from the bytes; certificates are DER blobs whose length the executor reports)
 Header1OK(o, f) ==        \* f: the facts logged for an exported v1 block
-  /\ f.magic_ok /\ f.major = 1 /\ f.minor = 0 /\ f.hdr_len = 32
-  /\ f.flags = 0 /\ f.build = o.build /\ f.image_length = o.img
+  /\ f.magic_ok /\ f.major = o.ver[1] /\ f.minor = o.ver[2] /\ f.hdr_len = 32             \* EVERY header field is the one the block was given
+  /\ f.flags = o.flags /\ f.build = o.build /\ f.image_length = o.img
   /\ f.cert_count = 1 /\ Len(f.entries) = 1
   /\ \A i \in 1..Len(f.entries) : /\ f.entries[i].der_ok                                   \* the certificate of the used root key, bit exact
                                   /\ f.entries[i].len >= f.entries[i].der_len /\ f.entries[i].len < f.entries[i].der_len + 4
@@ -226,7 +226,13 @@ Header1OK(o, f) ==        \* f: the facts logged for an exported v1 block
 NoKey  == Key("none", 0)
 NoSig  == [ok |-> FALSE, v |-> 0, len |-> 0, cons |-> 0]
 NoObj  == [kind |-> "none", keys |-> <<>>, used |-> 0, isk |-> FALSE, iskKey |-> NoKey, ud |-> [v |-> 0, len |-> 0], cons |-> 0,
-           signer |-> FALSE, signed |-> NoSig, img |-> 0, build |-> 0]
+           signer |-> FALSE, signed |-> NoSig, img |-> 0, build |-> 0, ver |-> <<1, 0>>, flags |-> <<0, 0, 0, 0>>]
+\* header of a v1 block: version major.minor (two 16-bit fields; 1.0 unless the caller says otherwise), the flags word (four bytes as
+\* they stand in the header, little endian; 0 unless the caller says otherwise), the build number
+DefVer   == <<1, 0>>
+DefFlags == <<0, 0, 0, 0>>
+HdrOK(ver, flags) == /\ Len(ver) = 2 /\ \A i \in 1..2 : ver[i] \in 0..65535
+                     /\ Len(flags) = 4 /\ \A i \in 1..4 : flags[i] \in 0..255
 NoFile == [has |-> FALSE, k |-> NoKey, enc |-> Enc("none", "none")]
 Files  == 1..4
 NoTab  == [fl |-> "none", slots |-> <<>>, cert |-> NoKey]
@@ -291,11 +297,11 @@ SetConstraints(c) ==
   /\ act' = [a |-> "SetConstraints", cons |-> c]
   /\ UNCHANGED <<fs, out, tab>>
 
-Build1(ks, used, img, build) ==
-  /\ ShapeOK("cert_block_1", ks) /\ used \in 1..N(ks)
-  /\ obj' = [NoObj EXCEPT !.kind = "cb1", !.keys = ks, !.used = used, !.img = img, !.build = build, !.signer = TRUE]
+Build1(ks, used, img, build, ver, flags) ==
+  /\ ShapeOK("cert_block_1", ks) /\ used \in 1..N(ks) /\ HdrOK(ver, flags)
+  /\ obj' = [NoObj EXCEPT !.kind = "cb1", !.keys = ks, !.used = used, !.img = img, !.build = build, !.ver = ver, !.flags = flags, !.signer = TRUE]
   /\ out' = NoObj
-  /\ act' = [a |-> "Build1", keys |-> ks, used |-> used, img |-> img, build |-> build, term |-> RkthV1(ks)]
+  /\ act' = [a |-> "Build1", keys |-> ks, used |-> used, img |-> img, build |-> build, ver |-> ver, flags |-> flags, term |-> RkthV1(ks)]
   /\ UNCHANGED <<fs, tab>>
 Export1 ==
   /\ obj.kind = "cb1"
@@ -305,7 +311,7 @@ Export1 ==
 Parse1 ==
   /\ out.kind = "cb1"
   /\ obj' = [out EXCEPT !.signer = FALSE]
-  /\ act' = [a |-> "Parse1", img |-> out.img, build |-> out.build, used |-> out.used, term |-> RkthV1(out.keys)]
+  /\ act' = [a |-> "Parse1", img |-> out.img, build |-> out.build, ver |-> out.ver, flags |-> out.flags, used |-> out.used, term |-> RkthV1(out.keys)]
   /\ UNCHANGED <<fs, out, tab>>
 SetImageLength(n) ==
   /\ obj.kind = "cb1" /\ n > 0 /\ n # obj.img
@@ -325,14 +331,18 @@ SetImageLength(n) ==
 \*   pfr1 / pfr21  pfr.CMPA of a cert_block_1 / cert_block_21 family:  export(keys = the WHOLE list)  the same page object is exported
 \*                                 again and again, each time with the key list of the moment
 \* (RKHTv21 / CertBlockV21 / the RoT meta of debug credentials have no incremental builder: the constructor takes the whole list.)
-\* The object comes to exist empty ("new"), from a key list (constructor / from_keys: "keys") or by parsing an exported table ("parsed").
+\* The object comes to exist empty ("new"), from a key list (constructor / from_keys: "keys") or by parsing an exported table ("parsed");
+\* a PFR page also by loading a configuration that carries a ROTKH ("cfg").
 Flavours    == {"rkht1", "cb1", "hab", "ahab", "ahab2", "pfr1", "pfr21"}
 RotOfFl(fl) == CASE fl \in {"rkht1", "cb1", "pfr1"} -> "cert_block_1" [] fl = "pfr21" -> "cert_block_21" [] fl = "hab" -> "srk_table_hab"
                  [] fl = "ahab" -> "srk_table_ahab" [] fl = "ahab2" -> "srk_table_ahab_v2"
 Indexed(fl) == fl \in {"rkht1", "cb1"}
 Whole(fl)   == fl \in {"pfr1", "pfr21"}                     \* the object is handed the whole key list in one call
 Origins(fl) == CASE fl = "rkht1" -> {"new", "keys", "parsed"} [] fl = "cb1" -> {"new", "parsed"} [] fl = "hab" -> {"new", "parsed"}
-                 [] Whole(fl) -> {"new"} [] OTHER -> {"new", "keys", "parsed"}
+                 [] Whole(fl) -> {"new", "cfg", "parsed"} [] OTHER -> {"new", "keys", "parsed"}
+\* a PFR page object that is not new HELD A VALUE before: the ROTKH of another key list (`init`) - possibly of another hash width than the
+\* one it is exported with next - that came with the configuration it was loaded from ("cfg") or with the binary it parsed ("parsed")
+Held(origin) == origin \in {"cfg", "parsed"}
 \* how one key is handed to the builder: a certificate object (plain / CA), the 32-byte key hash, a public key object (AHAB: with the
 \* flags argument 0 or 0x80 = CA).  For the SRK flavours the CA flag is part of the record the value is made of; for the indexed ones it is not.
 Forms(fl)   == CASE fl = "rkht1" -> {"hash"} [] fl = "cb1" -> {"crt", "ca", "hash"} [] fl = "hab" -> {"crt", "ca"} [] OTHER -> {"pub", "pubca"}
@@ -359,11 +369,14 @@ CertIndex(t) == IF t.cert = NoKey \/ ~(\E i \in 1..Len(t.slots) : t.slots[i].k =
 InitOK(fl, origin, init, cert) ==
   /\ fl \in Flavours /\ origin \in Origins(fl) /\ Len(init) <= 4 /\ \A i \in 1..Len(init) : Filled(init[i]) /\ (init[i].ca => ~Indexed(fl))
   /\ (origin = "new" => init = <<>>)
-  /\ (origin = "parsed" => TabLegal([fl |-> fl, slots |-> init, cert |-> NoKey]))             \* what was parsed is an exported, legal table
+  /\ (Held(origin) => TabLegal([fl |-> fl, slots |-> init, cert |-> NoKey]))                  \* what was parsed / loaded is an exported, legal table
   /\ (origin = "keys" => Len(init) >= 1 /\ \A i \in 1..Len(init) : init[i].k.cls \in Classes)
   /\ (IF fl = "cb1" /\ origin = "parsed" THEN \E i \in 1..Len(init) : init[i].k = cert ELSE cert = NoKey)   \* a parsed block has its certificate
 \* the bytes a "parsed" object is parsed from: the documented table over the key list it holds (for a v1 block: the table inside the block)
-StartImage(fl, origin, init) == IF origin = "parsed" THEN DocTable(RotOfFl(fl), FinalKeys(init), FinalCas(init)) ELSE Cat(<<>>)
+\* (a PFR page: the VALUE over the key list, which the ROTKH field held - zero padded to the width of the field)
+StartImage(fl, origin, init) == IF ~Held(origin) THEN Cat(<<>>)
+                                ELSE IF Whole(fl) THEN Doc(RotOfFl(fl), FinalKeys(init), FinalCas(init))
+                                ELSE DocTable(RotOfFl(fl), FinalKeys(init), FinalCas(init))
 StartT(fl, origin, init, cert) ==
   /\ InitOK(fl, origin, init, cert)
   /\ tab' = [fl |-> fl, slots |-> IF Indexed(fl) THEN Pad4(init) ELSE init, cert |-> cert]
@@ -416,6 +429,7 @@ FreshSignature == out.kind = "cb21" /\ out.isk => out.signed = Current(out)
 ParsedIsBuilt == act.a \in {"Parse21", "Parse1"} =>
                    /\ obj.keys = out.keys /\ obj.used = out.used /\ obj.ud = out.ud /\ obj.cons = out.cons
                    /\ obj.img = out.img /\ obj.build = out.build /\ obj.isk = out.isk
+                   /\ obj.ver = out.ver /\ obj.flags = out.flags
 \* reading by path sees the file content of the moment
 ReadIsCurrent == act.a = "ReadByPath" => act.term = DocCase(FileCase(act.rot, act.files, act.path, act.used))
 \* a device computation yields the construction of the RoT type of the REQUESTED revision (not of another revision of the family)
